@@ -1,10 +1,13 @@
-// E-GEN constant dumper for C20: numeric values of suspend_point_type::stack_state and the size of the state word,
-// compiled with -fno-access-control against /repo's current sources.
+// E-GEN constant dumper for C20: numeric values of suspend_point_type::stack_state and the size of the state word, the
+// values of task_dispatcher::post_resume_action, compiled with -fno-access-control against /repo's current sources.
 #include "tbb/scheduler_common.h"
 #include <cstdio>
 int main() {
     using SP = tbb::detail::r1::suspend_point_type;
     using S = SP::stack_state;
-    printf("{\"ssActive\": %d, \"ssSuspended\": %d, \"ssNotified\": %d, \"ssSize\": %d}\n",
-           (int)S::active, (int)S::suspended, (int)S::notified, (int)sizeof(std::atomic<S>));
+    using A = tbb::detail::r1::task_dispatcher::post_resume_action;
+    printf("{\"ssActive\": %d, \"ssSuspended\": %d, \"ssNotified\": %d, \"ssSize\": %d, "
+           "\"actInvalid\": %d, \"actRegisterWaiter\": %d, \"actCleanup\": %d, \"actNotify\": %d, \"actNone\": %d}\n",
+           (int)S::active, (int)S::suspended, (int)S::notified, (int)sizeof(std::atomic<S>),
+           (int)A::invalid, (int)A::register_waiter, (int)A::cleanup, (int)A::notify, (int)A::none);
 }
